@@ -71,7 +71,9 @@ func (ex *Exec) buildReplay(o *Obligation, cfg *PropConfig, noReplay bool) *Repl
 	rp.Cmd = cmdline
 	rp.Output = truncate(out, 6000)
 	switch {
-	case strings.Contains(out, "REPRODUCED"):
+	case strings.Contains(out, "WARNING: DATA RACE"):
+		rp.Outcome = "reproduced"
+	case strings.Contains(out, "REPRODUCED") && !strings.Contains(out, "NOT-REPRODUCED"):
 		rp.Outcome = "reproduced"
 	case err == nil || strings.Contains(out, "NOT-REPRODUCED"):
 		rp.Outcome = "not-reproduced"
